@@ -1,9 +1,10 @@
 import extract
-from rules import c02
+from rules import c02, f3
 
 
 def run(res, tier, replay=None):
     prog = extract.load_program("default")
     res.functions = sum(1 for _ in prog.all_funcs())
-    c02.run_r1(prog, res)
+    c02.run_r1(prog, res, floor=200)
+    f3.r5_type_table(prog, res)
     res.explanation = "C02 structural clauses"
